@@ -35,10 +35,10 @@ type dumpFacts struct {
 
 // (none of these contains a character that JSON must escape: no '"', no '\\', nothing below U+0020)
 var dumpStrings = []string{"", "a", "abc", "测试", "x y", "a/b", "é😀", "key:1", "[1,2]", "{}", "null", "true", "1e3",
-	"\x7f", "a\x7fb", "\U000E0001", "tag\U000E0041", "\U000F0000", "\u2028", "\ufeff", "\u00a0", "\u200b", "ｆｕｌｌ", "<>&", "'", "%s%d", strings.Repeat("长", 300),
+	"※‹›‼", "\u2038\u203f", "\u2027\u2040", "\x7f", "a\x7fb", "\U000E0001", "tag\U000E0041", "\U000F0000", "\u2028", "\ufeff", "\u00a0", "\u200b", "ｆｕｌｌ", "<>&", "'", "%s%d", strings.Repeat("长", 300),
 	strings.Repeat("a", 61), strings.Repeat("a", 62), strings.Repeat("a", 63), strings.Repeat("a", 64), strings.Repeat("a", 65), strings.Repeat("é", 31) + "a", strings.Repeat("b", 127), strings.Repeat("b", 128),
 	strings.Repeat("c", 255), strings.Repeat("c", 256), strings.Repeat("c", 257), strings.Repeat("d", 1023), strings.Repeat("d", 1024), strings.Repeat("d", 4097)}
-var dumpFloats = []float64{0, 1, -1, 0.5, 1.5, 0.1, 1e-9, -1e-9, 123456.789, 1e15, -1e15, 3.141592653589793, 1e6, 255.255, 0.30000000000000004}
+var dumpFloats = []float64{9223372036854775808, -9223372036854775808, 4294967296, 9007199254740993, 0, 1, -1, 0.5, 1.5, 0.1, 1e-9, -1e-9, 123456.789, 1e15, -1e15, 3.141592653589793, 1e6, 255.255, 0.30000000000000004}
 
 func genDumpScalar(t *rapid.T, facts *dumpFacts) (desc.T, desc.V) {
 	ty, v := genDumpScalar0(t, facts)
